@@ -14,12 +14,12 @@ PUp == P12 \cup PCls \cup { <<"/", "A", "/", "LOW">>, <<"/", "A", "/", "b">>, <<
 PQCls == PQ \cup PCls
 
 \* non-ASCII text in the shared prefix, as a literal and inside a group (character count # byte count)
-PNa == { <<"/", "~e~", "/", "a">>, <<"/", "~e~", "/", "b">>, <<"/", "~e~", "/", "LOW">>, <<"/", "ELW", "/", "a">>, <<"/", "ELW", "/", "b">>, <<"/", "a">> }
+PNa == { <<"/", "~e~", "/", "a">>, <<"/", "~e~", "/", "b">>, <<"/", "~e~", "/", "LOW">>, <<"/", "ELW", "/", "a">>, <<"/", "ELW", "/", "b">>, <<"/", "a">>, <<"/", "~u~", "/", "a">> }
 \* an expression whose compiled program takes several MiB (lazy and warmed evaluation must build it with the same limits)
 PBig == { <<"/", "a", "/", "BIGW">>, <<"/", "a", "/", "b">>, <<"/", "BIGW">> }
 ProbesBig == { <<>>, <<"/", "a", "/", "a", "b">>, <<"/", "a", "/", "b">>, <<"/", "a", "/", "~e~">>, <<"/", "a", "/", "a", "/">>, <<"/", "a", "b">> }
 ProbesNa == { <<>>, <<"/", "~e~", "/", "a">>, <<"/", "~e~", "/", "b">>, <<"/", "~e~", "/", "a", "b">>, <<"/", "~e~", "/">>, <<"/", "~e~", "a", "/", "a">>,
-              <<"/", "~e~", "b", "a", "/", "b">>, <<"/", "a">>, <<"/", "~e~", "/", "A">>, <<"/", "e", "/", "a">>, <<"/", "~e~", "a", "/", "a", "/">> }
+              <<"/", "~e~", "b", "a", "/", "b">>, <<"/", "a">>, <<"/", "~e~", "/", "A">>, <<"/", "e", "/", "a">>, <<"/", "~e~", "a", "/", "a", "/">>, <<"/", "~u~", "/", "a">>, <<"/", "~u~", "/", "b">> }
 \* case-insensitive trees emptied and refilled (the case flag must survive every way of emptying)
 PCase == { <<"/", "A", "/", "LOW">>, <<"/", "a", "/", "b">>, <<"/", "A", "/", "b">> }
 ProbesCase == { <<>>, <<"/", "a">>, <<"/", "A">>, <<"/", "a", "/", "b">>, <<"/", "A", "/", "B">>, <<"/", "a", "/", "a", "b">>, <<"/", "A", "/", "A">>, <<"/", "a", "/", "B">> }
@@ -27,6 +27,14 @@ ProbesCase == { <<>>, <<"/", "a">>, <<"/", "A">>, <<"/", "a", "/", "b">>, <<"/",
 PSib == { <<"/", "a", "/", "LOW", "/", "a">>, <<"/", "a", "/", "LOW", "/", "b">>, <<"/", "a", "/", "b", "/", "a">>, <<"/", "a", "/", "b", "/", "AS">>, <<"/", "a", "/", "b">> }
 ProbesSib == { <<>>, <<"/", "a", "/", "b", "/", "a">>, <<"/", "a", "/", "b", "/", "b">>, <<"/", "a", "/", "a", "/", "a">>, <<"/", "a", "/", "b">>, <<"/", "a", "/", "b", "/", "a", "a">>,
                <<"/", "a", "/", "a", "b", "/", "b">>, <<"/", "a", "/", "b", "/">> }
+\* five insertions under one prefix, one pattern nested under another: trees three levels deep whose inner node is the last child
+PNest == { <<"/", "a", "/", "a">>, <<"/", "a", "/", "b">>, <<"/", "a", "/", "A">>, <<"/", "a", "/", "a", "/", "b">>, <<"/", "a", "/", ".">> }
+ProbesNest == { <<>>, <<"/", "a", "/", "a">>, <<"/", "a", "/", "b">>, <<"/", "a", "/", "A">>, <<"/", "a", "/", "a", "/", "b">>, <<"/", "a", "/", ".">>, <<"/", "a", "/">> }
+\* (the nest universe is cut down to insertion orders: every pattern has its own id, every operation but the last is an insertion)
+NestSeq == SetToSeq(PNest)
+IdOfPat(p) == "i" \o ToString(CHOOSE k \in 1..Len(NestSeq) : NestSeq[k] = p)
+NestOnly == /\ \A e \in live : e[2] = IdOfPat(e[1])
+            /\ \A k \in 1..(Len(hist) - 1) : hist[k].op = "insert"
 \* deeper histories on three patterns under one node (warm-up, then retain / remove below a node that survives)
 PDeep == { <<"/", "a", "/", "b">>, <<"/", "a", "/", "LOW">>, <<"/", "a", "AS">> }
 ProbesDeep == { <<>>, <<"/", "a", "/", "b">>, <<"/", "a", "/", "a">>, <<"/", "a", "a">>, <<"/", "a">>, <<"/", "a", "/", "a", "b">> }
